@@ -34,6 +34,7 @@ func runC20(c *Ctx) {
 	c20Serve(c)
 	c20Signal(c)
 	c20ServeRetry(c)
+	c20ReadyChannels(c)
 }
 
 // newDialerMode returns the constant mode passed to the NewDialer call that
@@ -522,4 +523,97 @@ func c20ServeRetry(c *Ctx) {
 	}
 	c.R.Check(okAttempts, "R-C20-5", fn+":attempts", fn, c.pos(sv.Pos()), fmt.Sprintf("loop bound is 40=%v", okAttempts), "40 attempts, then a non-nil error", "HTTP listener retry bound differs from the documented 40 attempts")
 	c.R.Floor("R-C20-5", 4)
+}
+
+// c20ReadyChannels (R-C20-4, second clause): readiness is announced only after
+// every task's Ready() channel has been closed, so every Task implementation
+// must actually close the channel it hands out: a fresh channel is closed
+// before it is returned; a channel kept in a field is closed somewhere in the
+// type's own methods (or closures of them). Otherwise the daemon never reports
+// READY. httpTask additionally hands a listen error back to serve().
+func c20ReadyChannels(c *Ctx) {
+	n := 0
+	for _, fn := range c.srcFuncs() {
+		if fn.Pkg == nil || fn.Pkg.Pkg.Path() != PkgCorerad || fn.Name() != "Ready" || fn.Signature.Recv() == nil || fn.Parent() != nil {
+			continue
+		}
+		n++
+		name := c.fname(fn)
+		recvT := fn.Signature.Recv().Type()
+		for _, p := range c.pathsO("R-C20-4", fn, an.PathOpts{}) {
+			if p.Ret == nil {
+				continue
+			}
+			res := p.Results[0]
+			// look through the conversion to a receive-only channel
+			for res.Op == an.OpConv && len(res.Args) == 1 {
+				res = res.Args[0]
+			}
+			ok := false
+			fact := "returns " + res.String()
+			switch {
+			case res.Op == an.OpMake:
+				// fresh channel: closed on this path
+				p.Instrs(func(in ssa.Instruction) {
+					if ci, isCall := in.(ssa.CallInstruction); isCall {
+						if b, isB := ci.Common().Value.(*ssa.Builtin); isB && b.Name() == "close" && sameValue(p.Of(ci.Common().Args[0]), res) {
+							ok = true
+						}
+					}
+				})
+				fact += fmt.Sprintf("; closed before it is returned: %v", ok)
+			case res.Op == an.OpField:
+				// field channel: some method (or closure of a method) of the same type closes it
+				fld := res.Name
+				for _, g := range c.srcFuncs() {
+					root := g
+					for root.Parent() != nil {
+						root = root.Parent()
+					}
+					if root.Signature.Recv() == nil || !types.Identical(root.Signature.Recv().Type(), recvT) {
+						continue
+					}
+					for _, ci := range an.CallsIn(g) {
+						if b, isB := ci.Common().Value.(*ssa.Builtin); isB && b.Name() == "close" {
+							if e := c.XO.Of(ci.Common().Args[0]); e.IsField(fld) {
+								ok = true
+							}
+						}
+					}
+				}
+				fact += fmt.Sprintf("; a method of the type closes the field: %v", ok)
+			}
+			c.R.Check(ok, "R-C20-4", name+":ready-channel-is-closed", name, c.pos(p.Ret.Pos()), fact,
+				"the channel returned by Ready() is closed (at once, or by the task when it is ready)", "a task never reports ready: the READY notification is never sent")
+		}
+	}
+	c.R.Check(n >= 4, "R-C20-4", "corerad:Ready-implementations", "", "", fmt.Sprintf("%d Ready() method(s)", n), ">= 4", "anchor-missing")
+
+	// httpTask.Run: a failed net.Listen is returned to serve() (which retries *net.OpError)
+	if run := c.P.Method("internal/corerad", "httpTask", "Run"); run != nil {
+		for _, cl := range run.AnonFuncs {
+			for _, p := range c.pathsO("R-C20-5", cl, an.PathOpts{}) {
+				if p.Ret == nil || len(p.Results) != 1 {
+					continue
+				}
+				for _, a := range p.Atoms {
+					x, y, op, ok := effCmp(a)
+					b, idx := stripExtract(x)
+					if ok && exprIsNil(y) && idx == 1 && b.Op == an.OpCall && b.Fn != nil && b.Fn.String() == "net.Listen" {
+						if op == token.NEQ {
+							c.R.Check(sameValue(p.Results[0], x), "R-C20-5", c.fname(run)+":listen-error-returned", c.fname(run), c.pos(p.Ret.Pos()), "returns "+p.Results[0].String(),
+								"the net.Listen error (serve() retries listener errors)", "a failed listen is reported as success: the debug server silently never starts")
+						} else {
+							served := callsOnPath(p, func(cc *ssa.CallCommon) bool {
+								f := an.CalleeObj(cc)
+								return f != nil && f.Name() == "Serve" && f.Pkg() != nil && f.Pkg().Path() == "net/http"
+							})
+							c.R.Check(len(served) == 1, "R-C20-5", c.fname(run)+":serves-after-listen", c.fname(run), c.pos(p.Ret.Pos()), fmt.Sprintf("%d http.Server.Serve call(s) after a successful listen", len(served)),
+								"the HTTP server is served on the listener", "the debug server never serves")
+						}
+					}
+				}
+			}
+		}
+	}
 }
